@@ -42,6 +42,8 @@ def spell(items):
             out.append(a)
         elif t in ('SYM', 'OP', 'WORD'):
             out.append(a)
+        elif t in ('PLUS', 'LBR', 'RBR'):
+            out.append({'PLUS': '+', 'LBR': '[', 'RBR': ']'}[t])
         elif t == 'DSYM':
             out.append(f'DSYM{b}')
         elif t == 'BL':
